@@ -421,7 +421,7 @@ func c19GraphTheorems(c *Ctx, cs *c19Case, plain *syntax.Ast, base *c19Compiled)
 	}
 	n := 2
 	if c.Thorough {
-		n = 6
+		n = 3
 	}
 	var rems []cand
 	for _, cd := range ins {
